@@ -5,6 +5,7 @@ import (
 	"math/rand/v2"
 	"regexp"
 	"runtime"
+	"sort"
 	"strconv"
 	"strings"
 	"sync"
@@ -433,6 +434,17 @@ func c19dump(ll gtab.LookupList) string {
 
 // ---------------------------------------------------------------------------
 
+func uniqueSorted(a []glyph.ID) []glyph.ID {
+	sort.Slice(a, func(i, j int) bool { return a[i] < a[j] })
+	var out []glyph.ID
+	for i, g := range a {
+		if i == 0 || g != a[i-1] {
+			out = append(out, g)
+		}
+	}
+	return out
+}
+
 func runC19(c *mon.Ctx) {
 	// --- A: Parse(Explain(L)) == L --------------------------------------------
 	c.Stratum("roundtrip", c.N(2400, 100000), func(k *mon.Case) {
@@ -524,6 +536,109 @@ func runC19(c *mon.Ctx) {
 		k.Sample(text)
 	})
 
+	// large subtables: more than a dozen rules, many of them sharing a first
+	// glyph (the order of ligatures with a common first glyph is their priority)
+	c.Stratum("roundtrip-large", c.N(300, 20000), func(k *mon.Case) {
+		r := k.Rng
+		n := 30 + r.IntN(40)
+		ft := c19makeFont(r, n, k.Index%3, false)
+		nFirst := 2 + r.IntN(5)
+		firsts := map[glyph.ID]bool{}
+		for len(firsts) < nFirst {
+			firsts[glyph.ID(1+r.IntN(n-1))] = true
+		}
+		var gids []glyph.ID
+		for g := range firsts {
+			gids = append(gids, g)
+		}
+		sort.Slice(gids, func(i, j int) bool { return gids[i] < gids[j] })
+		var lookup *gtab.LookupTable
+		total := 0
+		switch k.Index / 3 % 3 {
+		case 0: // ligatures, with prefix-related component lists
+			repl := make([][]gtab.Ligature, len(gids))
+			for i := range gids {
+				seen := map[string]bool{}
+				for m := 4 + r.IntN(12); m > 0; m-- {
+					var in []glyph.ID
+					if len(repl[i]) > 0 && r.IntN(2) == 0 {
+						// a proper prefix of an earlier rule comes later, or an extension comes later
+						prev := repl[i][r.IntN(len(repl[i]))].In
+						if len(prev) > 1 && r.IntN(2) == 0 {
+							in = append(in, prev[:len(prev)-1]...)
+						} else {
+							in = append(append(in, prev...), glyph.ID(1+r.IntN(n-1)))
+						}
+					} else {
+						for q := 1 + r.IntN(3); q > 0; q-- {
+							in = append(in, glyph.ID(1+r.IntN(n-1)))
+						}
+					}
+					if len(in) == 0 || len(in) > 5 || seen[fmt.Sprint(in)] {
+						continue
+					}
+					seen[fmt.Sprint(in)] = true
+					repl[i] = append(repl[i], gtab.Ligature{In: in, Out: glyph.ID(1 + r.IntN(n-1))})
+				}
+				if len(repl[i]) == 0 {
+					repl[i] = []gtab.Ligature{{In: []glyph.ID{1}, Out: 2}}
+				}
+				total += len(repl[i])
+			}
+			lookup = &gtab.LookupTable{Meta: &gtab.LookupMetaInfo{LookupType: 4}, Subtables: []gtab.Subtable{&gtab.Gsub4_1{Cov: otl.TableOf(gids), Repl: repl}}}
+			k.Class("large:gsub4")
+		case 1: // multiple substitution with many entries
+			var all []glyph.ID
+			for g := 1; g < n; g++ {
+				if r.IntN(2) == 0 {
+					all = append(all, glyph.ID(g))
+				}
+			}
+			if len(all) < 13 {
+				for g := 1; g <= 14 && g < n; g++ {
+					all = append(all, glyph.ID(g))
+				}
+				all = uniqueSorted(all)
+			}
+			repl := make([][]glyph.ID, len(all))
+			for i := range repl {
+				for q := 1 + r.IntN(3); q > 0; q-- {
+					repl[i] = append(repl[i], glyph.ID(1+r.IntN(n-1)))
+				}
+			}
+			total = len(all)
+			lookup = &gtab.LookupTable{Meta: &gtab.LookupMetaInfo{LookupType: 2}, Subtables: []gtab.Subtable{&gtab.Gsub2_1{Cov: otl.TableOf(all), Repl: repl}}}
+			k.Class("large:gsub2")
+		default: // single substitution with many scattered entries
+			var all []glyph.ID
+			for g := 1; g < n; g++ {
+				if r.IntN(3) != 0 {
+					all = append(all, glyph.ID(g))
+				}
+			}
+			sub := make([]glyph.ID, len(all))
+			for i := range sub {
+				sub[i] = glyph.ID(1 + r.IntN(n-1))
+			}
+			total = len(all)
+			lookup = &gtab.LookupTable{Meta: &gtab.LookupMetaInfo{LookupType: 1}, Subtables: []gtab.Subtable{&gtab.Gsub1_2{Cov: otl.TableOf(all), SubstituteGlyphIDs: sub}}}
+			k.Class("large:gsub1")
+		}
+		if total > 12 {
+			k.Class("large:more-than-12-rules")
+		}
+		// Explain ranges over maps: repeat, so that several iteration orders are seen
+		for rep := 0; rep < 6; rep++ {
+			text, ok := c19roundTrip(k, ft, otl.GSUB, gtab.LookupList{lookup}, fmt.Sprintf("large-GSUB%d", lookup.Meta.LookupType))
+			if !ok {
+				return
+			}
+			if rep == 0 {
+				k.DistinctBytes([]byte(text))
+			}
+		}
+	})
+
 	// cmaps with non-printable characters (no-break space etc.), as real fonts have them
 	c.Stratum("roundtrip-nonprintable", c.N(300, 10000), func(k *mon.Case) {
 		r := k.Rng
@@ -549,4 +664,5 @@ func runC19(c *mon.Ctx) {
 	req = append(req, "font:names+cmap", "font:names-only", "font:cmap-only", "census",
 		"gomaxprocs:1", "gomaxprocs:2", "gomaxprocs:4", "gomaxprocs:16", "outcome:error", "outcome:lookups")
 	c.Require(req...)
+	c.Require("large:gsub4", "large:gsub2", "large:gsub1", "large:more-than-12-rules")
 }
